@@ -280,7 +280,7 @@ func suiteScope(c *Ctx, mode string) {
 		"c07": "sequential {obtain, record, Close, report, obtain again} cycles on 1-3 identities with 1-64 shards, plain and cached reporters, with and without a sanitizer that aliases two raw keys; nontrivial = a closed scope is re-acquired or reported; distinct by program text",
 	}
 	c.Cov.Rule = rules[mode]
-	n := c.N(300, 5000)
+	n := c.N(1500, 15000)
 	for i := 0; i < n; i++ {
 		runScopeProgram(c, c.Rng.Fork(), mode)
 	}
@@ -483,7 +483,13 @@ func runScopeProgram(c *Ctx, r *Rng, mode string) {
 			m := sr.genTags(3)
 			if r.Chance(40) && len(sr.scopes) > 1 { // re-tag an existing key of the parent
 				pt := tally.VerifScopeTags(sr.scopes[p])
+				pks := make([]string, 0, len(pt))
 				for k := range pt {
+					pks = append(pks, k)
+				}
+				sort.Strings(pks) // never let Go's map order decide a generated choice
+				if len(pks) > 0 {
+					k := pks[r.Intn(len(pks))]
 					for k2 := range m { // keep sanitized keys of one map pairwise distinct
 						if k2 != k && sr.san.Key(k2) == sr.san.Key(k) {
 							delete(m, k2)
@@ -491,7 +497,6 @@ func runScopeProgram(c *Ctx, r *Rng, mode string) {
 					}
 					m[k] = genScopeStr(r, false)
 					sr.retagged = true
-					break
 				}
 			}
 			keep := copyTags(m)
@@ -643,13 +648,21 @@ func runScopeProgram(c *Ctx, r *Rng, mode string) {
 			} else {
 				m := map[string]string{}
 				seen := map[string]bool{}
-				for k, v := range h.tags {
+				hks := make([]string, 0, len(h.tags))
+				for k := range h.tags {
+					hks = append(hks, k)
+				}
+				sort.Strings(hks)
+				for _, k := range hks {
 					k2 := alias(k)
 					if seen[sr.san.Key(k2)] {
 						k2 = k
 					}
+					if seen[sr.san.Key(k2)] {
+						continue // two raw keys of one map must not sanitize to the same key (map order would decide)
+					}
 					seen[sr.san.Key(k2)] = true
-					m[k2] = v
+					m[k2] = h.tags[k]
 				}
 				tok := mapHex(m)
 				sh := sr.shardFor(h.parent, nil, m)
